@@ -17,6 +17,14 @@ const COUNTER_MASK: usize = usize::MAX >> 1;
 ///  - `0b1_______...` the counter is mut borrowed, and some other thread is trying to borrow
 pub struct AtomicBorrow(AtomicUsize);
 
+#[cfg(hecs_verif)]
+impl AtomicBorrow {
+    /// Raw value of the flag, for verification harnesses
+    pub fn verif_raw(&self) -> usize {
+        self.0.load(Ordering::SeqCst)
+    }
+}
+
 impl AtomicBorrow {
     pub const fn new() -> Self {
         Self(AtomicUsize::new(0))
@@ -24,6 +32,8 @@ impl AtomicBorrow {
 
     pub fn borrow(&self) -> bool {
         // Add one to the borrow counter
+        #[cfg(hecs_verif)]
+        crate::verif::yield_point(1);
         let prev_value = self.0.fetch_add(1, Ordering::Acquire);
 
         // If the previous counter had all of the immutable borrow bits set,
@@ -34,6 +44,8 @@ impl AtomicBorrow {
 
         // If the mutable borrow bit is set, immutable borrow can't occur. Roll back.
         if prev_value & UNIQUE_BIT != 0 {
+            #[cfg(hecs_verif)]
+            crate::verif::yield_point(2);
             self.0.fetch_sub(1, Ordering::Release);
             false
         } else {
@@ -42,18 +54,24 @@ impl AtomicBorrow {
     }
 
     pub fn borrow_mut(&self) -> bool {
+        #[cfg(hecs_verif)]
+        crate::verif::yield_point(3);
         self.0
             .compare_exchange(0, UNIQUE_BIT, Ordering::Acquire, Ordering::Relaxed)
             .is_ok()
     }
 
     pub fn release(&self) {
+        #[cfg(hecs_verif)]
+        crate::verif::yield_point(4);
         let value = self.0.fetch_sub(1, Ordering::Release);
         debug_assert!(value != 0, "unbalanced release");
         debug_assert!(value & UNIQUE_BIT == 0, "shared release of unique borrow");
     }
 
     pub fn release_mut(&self) {
+        #[cfg(hecs_verif)]
+        crate::verif::yield_point(5);
         let value = self.0.fetch_and(!UNIQUE_BIT, Ordering::Release);
         debug_assert_ne!(value & UNIQUE_BIT, 0, "unique release of shared borrow");
     }
